@@ -435,9 +435,15 @@ def _region_clauses(record: Any, areas: List[Any]) -> List[Tuple[str, bool, str]
 
 def _in_location_order(features: Sequence[Any]) -> bool:
     """Demanded only where every reading of 'location order' agrees: the features that do not
-    span the origin appear by non-decreasing start."""
+    span the origin appear by non-decreasing start, and the features that do span it appear,
+    among themselves, by non-decreasing start of their part before the origin (the one that
+    begins earlier comes first; equal starts are left free, as is the position of the spanning
+    features relative to the others)."""
     starts = [int(f.location.start) for f in features if len(f.location.parts) == 1]
-    return all(starts[i] <= starts[i + 1] for i in range(len(starts) - 1))
+    if not all(starts[i] <= starts[i + 1] for i in range(len(starts) - 1)):
+        return False
+    spanning = [max(int(part.start) for part in f.location.parts) for f in features if len(f.location.parts) > 1]
+    return all(spanning[i] <= spanning[i + 1] for i in range(len(spanning) - 1))
 
 
 def _state_clauses(record: Any, retired: Sequence[Any] = ()) -> List[Tuple[str, bool, str]]:
